@@ -637,5 +637,39 @@ def rule_i(prog, rep):
                           key=f'C13.i/{fn_name}/dispatch')
 
 
-RULES = [('C13.i', rule_i), ('C13.h', rule_h), ('C13.a', rule_a), ('C13.b', rule_b), ('C13.c', rule_c), ('C13.d', rule_d), ('C13.e', rule_e), ('C13.f', rule_f),
+def rule_j(prog, rep):
+    rep.rule('C13.j', 'T2', 'a waiting lock request does not hold up the session: V1::acquire_lock awaits the confirmation receiver only '
+             'inside a spawned task - the handler itself returns at once, so the requests pipelined behind a contended acquire are '
+             'read and answered while the lock is still held by someone else')
+    crate = prog.crate(WB)
+    f = crate.fn(f'{V1}::acquire_lock')
+    waits = []
+    for nd, anc in crate.walk_fn(f):
+        if nd.get('k') == 'await' and 'oneshot::Receiver' in str((nd.get('e') or {}).get('ty') or nd.get('operand_ty') or ''):
+            waits.append((nd, anc))
+    if not waits:
+        # fall back on the type of the awaited local
+        for nd, anc in crate.walk_fn(f):
+            if nd.get('k') == 'match' and 'oneshot::error::RecvError' in str(nd.get('scrut_ty')) and nd['scrut'].get('k') == 'await':
+                waits.append((nd['scrut'], anc + (nd,)))
+    if not waits:
+        raise AnchorMissing('the await of the lock confirmation in V1::acquire_lock')
+    bad = []
+    for nd, anc in waits:
+        in_task = False
+        chain = [a for a in anc if isinstance(a, dict)]
+        for i_, a in enumerate(chain):
+            if a.get('k') == 'closure' and i_ > 0 and chain[i_ - 1].get('k') == 'call' and is_spawn(callee(chain[i_ - 1])):
+                in_task = True
+        if not in_task:
+            bad.append(nd)
+    if bad:
+        rep.violation('C13.j', 'V1::acquire_lock', loc(f, bad[0]), 'the handler awaits the lock confirmation itself: every request the '
+                      'client pipelined behind it waits until the lock is granted or cancelled', key='C13.j/acquire_lock/inline-wait',
+                      expected='spawn(async move { rx.await .. })')
+    else:
+        rep.ok('C13.j', 'V1::acquire_lock', f.loc, f'{len(waits)} wait(s) for the confirmation, all inside spawned tasks')
+
+
+RULES = [('C13.j', rule_j), ('C13.i', rule_i), ('C13.h', rule_h), ('C13.a', rule_a), ('C13.b', rule_b), ('C13.c', rule_c), ('C13.d', rule_d), ('C13.e', rule_e), ('C13.f', rule_f),
          ('C13.g', rule_g)]
